@@ -16,6 +16,7 @@ while any indexing / sign / weight slip changes the result by O(1e-3..1)*scale.
 """
 import json
 import math
+import os
 import signal
 import sys
 import time
@@ -363,7 +364,7 @@ def c10_grid_case(case):
             adv.gridStep(g)
         return [int(x) for x in L.starts], g.getAllData().copy(), theta
 
-    res, _ = MPI.run_job(P, job, timeout=300)
+    res, _ = MPI.run_job(P, job, timeout=30)
     theta = res[0][2]
     r_all, v_all = np.array(case['r'], float), np.array(case['v'], float)
     Gl = np.random.default_rng(case['dseed']).normal(size=(len(r_all), len(v_all), len(theta), nz))
@@ -531,7 +532,7 @@ def c11_case(case):
 
 
 def c13_field_ref(phi, theta, sp, dz, iota, R0, r, order=6):
-    return c13_ref(phi, theta, sp, dz, iota, R0, r, c13_stencils(order)[0])[0]
+    return c13_ref(phi, theta, sp, dz, iota, R0, r, c13_stencils(order)[0])
 
 
 def c11_grid_case(case):
@@ -583,16 +584,17 @@ def c11_grid_case(case):
         adv.gridStepKeepGradient(g, vals, case['dt2'])
         return [int(x) for x in L.starts], first, g.getAllData().copy(), vals.copy(), theta, vpts, feq_consts(consts)
 
-    res, _ = MPI.run_job(P, job, timeout=400)
+    res, _ = MPI.run_job(P, job, timeout=30)
     theta, vpts, K = res[0][4], res[0][5], res[0][6]
     F, PH = data(len(theta), len(vpts))
     spt, spv = Sp1(bth, th['p'], True), Sp1(bv, ax['p'], False)
-    grad = np.array([c13_field_ref(PH[i].real, theta, spt, dz, case['iota'], case['R0'], r_all[i]) for i in range(nr)])
+    gr = [c13_field_ref(PH[i].real, theta, spt, dz, case['iota'], case['R0'], r_all[i]) for i in range(nr)]
+    grad = np.array([g_[0] for g_ in gr])
+    gscale = max(g_[1] for g_ in gr) * (1.0 + np.abs(PH.real).max())
     scale = 1.0 + np.abs(F).max()
     for rank, (st, first, second, vals, _, _, _) in enumerate(res):
         nrl, nzl = first.shape[0], first.shape[1]
-        ck.close('rank %d: gradient table left in parGradVals' % rank, vals, grad[st[0]:st[0] + nrl],
-                 (1.0 + case['phiamp'] * 4) * 6.0 / dz)
+        ck.close('rank %d: gradient table left in parGradVals' % rank, vals, grad[st[0]:st[0] + nrl], gscale)
         bad1 = bad2 = None
         for i in range(nrl):
             for j in range(nzl):
@@ -834,7 +836,11 @@ def c12_trace_case(case):
                 try:
                     with_timeout(case.get('limit', 60), run)
                 except Timeout:
-                    ck.add('step %d implicit iteration terminates' % k, False, 'no return within %d s (dt=%g)' % (case.get('limit', 60), dt))
+                    its = ref.feet_implicit(Cphi, dt)[3]
+                    ck.add('step %d implicit iteration terminates' % k, False,
+                           'no return within %d s (a terminating call takes < 0.2 s); dt=%g, |dt|/2*max||grad drift|| = %.2f; the reference fixed-point '
+                           'iteration %s' % (case.get('limit', 60), dt, 0.5 * abs(dt) * ref.jac_bound(Cphi),
+                                             'does not converge either (400 sweeps)' if its >= 400 else 'converges in %d sweeps' % its))
                     break
                 ck.add('step %d implicit iteration terminates' % k, True)
             scale = 1.0 + np.abs(prev).max()
@@ -951,7 +957,7 @@ def c12_grid_case(case):
         adv.gridStep_SplinesUnchanged(g, case['dt2'])
         return [int(x) for x in L.starts], [int(x) for x in Lp.starts], first, g.getAllData().copy(), theta, r, feq_consts(consts), float(consts.B0)
 
-    res, _ = MPI.run_job(P, job, timeout=500)
+    res, _ = MPI.run_job(P, job, timeout=30)
     theta, r, K, B0 = res[0][4], res[0][5], res[0][6], res[0][7]
     F, PH = data(len(theta), len(r), theta, r)
     ref = C12Ref(bth, ath['p'], br, ar['p'], theta, r, B0)
@@ -995,6 +1001,14 @@ def c12_scale_dt(case_base, spec, seed_off, target_cells=None, frac=None):
     if target_cells is not None:
         return target_cells / speed, J
     return min(frac / J, 4.0 / speed), J          # also at most 4 cells, so that a nearly rigid flow does not give an absurd dt
+
+
+def c12_reference_converges(case_base, spec, dt):
+    ath, ar, bth, br = c12_axes(case_base)
+    theta, r = c12_greville(Sp1(bth, ath['p'], True)), c12_greville(Sp1(br, ar['p'], False))
+    ref = C12Ref(bth, ath['p'], br, ar['p'], theta, r, float(case_base.get('consts', {}).get('B0', 1.0)))
+    Cphi = ref.fit(c12_phi_nodal(spec, theta, r, np.random.default_rng(case_base['dseed'])))
+    return ref.feet_implicit(Cphi, dt)[3] < 400
 
 
 def c12_greville(s):
@@ -1050,6 +1064,21 @@ def c12_gen(tier, rng):
         c.update(kind='trace', nul=bool(k % 2), schemes=[False], steps=steps, fkind=['random', 'smooth'][k % 2],
                  tol=[None, 1e-12, 1e-8][k % 3], limit=60)
         cases.append(c)
+    # implicit scheme outside the contractive regime (|dt|/2 ||J_D|| about 2): the statement still promises termination.
+    # Only potentials for which the reference fixed-point iteration itself fails to converge are kept.
+    want, tries = (1 if quick else 3), 0
+    while want and tries < 40:
+        tries += 1
+        c = base(2 * tries)
+        c['rmin'], c['rmax'] = 2.0, 3.0
+        spec = dict(nmodes=2, amp=1.0, mmin=1, mmax=2, noise=0.0, omega=0.2)
+        dt, J = c12_scale_dt(c, spec, 0, frac=1.0)
+        dt = 4.5 / J
+        if c12_reference_converges(c, spec, dt):
+            continue
+        c.update(kind='trace', stiff=True, nul=True, schemes=[False], steps=[[float(dt), 0.0, spec]], fkind='smooth', tol=None, limit=10)
+        cases.append(c)
+        want -= 1
     # exact solutions
     nex = 4 if quick else 18
     for k in range(nex):
@@ -1083,8 +1112,9 @@ def c12_gen(tier, rng):
         c['theta'] = dict(n=7, p=3, uniform=k % 2 == 0, jitter=1.0, jseed=k)
         c['rax'] = dict(n=7, p=3, uniform=k % 2 == 0, jitter=1.0, jseed=k)
         spec = dict(nmodes=2, amp=1.0, mmax=2, noise=0.0, omega=0.2)
-        dt, _ = c12_scale_dt(c, spec, 0, frac=0.5)
-        c.update(kind='grid', nul=bool(k % 2), explicit=bool((k + 1) % 2), phi=spec, dt=float(dt), dt2=float(-0.7 * dt), nz=max(pg[1], 2) + 1,
+        nzp = max(pg[1], 2) + 1
+        dt = min(c12_scale_dt(c, spec, 5 * j, frac=0.5)[0] for j in range(nzp))      # contractive on every z plane
+        c.update(kind='grid', nul=bool(k % 2), explicit=bool((k + 1) % 2), phi=spec, dt=float(dt), dt2=float(-0.7 * dt), nz=nzp,
                  vgrid=np.linspace(-2.0, 2.0, max(pg[0], 2) + 1).tolist(), nprocs=list(pg))
         cases.append(c)
     return cases
@@ -1306,7 +1336,7 @@ GEN = {'C10': c10_gen, 'C11': c11_gen, 'C12': c12_gen, 'C13': c13_gen}
 DISPATCH = {'C10': c10_dispatch, 'C11': c11_dispatch, 'C12': c12_dispatch, 'C13': c13_dispatch}
 
 
-def run_cases(prop, cases, out, budget=None):
+def run_cases(prop, cases, out, repo, budget=None):
     t0 = time.time()
     for case in cases:
         if budget is not None and time.time() - t0 > budget:
@@ -1319,12 +1349,21 @@ def run_cases(prop, cases, out, budget=None):
             if len(out['failures']) < 6:
                 out['failures'].append(dict(case=case, detail='call did not return within the time limit'))
             continue
-        except Exception:
+        except Exception as e:
             tb = traceback.format_exc()
-            # an exception raised by the code under test on a legal input is a violation of the stated behaviour
-            out['evaluated'] += 1
-            if len(out['failures']) < 6:
-                out['failures'].append(dict(case=case, detail='exception: ' + tb[-700:]))
+            frames = traceback.extract_tb(e.__traceback__)
+            in_repo = any(fr.filename.startswith(repo.rstrip('/') + '/') for fr in frames)
+            hung = 'still running' in str(e)
+            if in_repo or hung or ('rank' in str(e) and 'failed' in str(e)):
+                # raised by the code under test on a legal input (or a rank that never returned): counts as a violation
+                out['evaluated'] += 1
+                if len(out['failures']) < 6:
+                    out['failures'].append(dict(case=case, detail=('ranks did not return: ' if hung else 'exception in the code under test: ') + tb[-600:]))
+                if hung:
+                    out.setdefault('notes', []).append('run stopped: simulated ranks are still spinning in the background')
+                    break
+            else:
+                out['errors'].append(tb[-1200:])
             continue
         out['cases_run'] += 1
         out['evaluated'] += ck.n
@@ -1344,16 +1383,18 @@ def main():
         if len(sys.argv) > 5:
             case = json.load(open(sys.argv[5]))
             case = case.get('case', case)
-            run_cases(prop, [case], out)
+            run_cases(prop, [case], out, repo)
             out['samples'] = [case]
         else:
             rng = np.random.default_rng(seed)
             cases = GEN[prop](tier, rng)
-            run_cases(prop, cases, out, budget=50 if tier == 'quick' else 560)
+            run_cases(prop, cases, out, repo, budget=50 if tier == 'quick' else 560)
     except Exception:
         out['errors'].append(traceback.format_exc()[-1500:])
     out['wall_s'] = round(time.time() - t0, 2)
     json.dump(out, sys.stdout, default=lambda o: o.tolist() if hasattr(o, 'tolist') else str(o))
+    sys.stdout.flush()
+    os._exit(0)          # simulated ranks that never returned must not keep the process alive
 
 
 if __name__ == '__main__':
